@@ -271,7 +271,9 @@ def conf_value(r, n, p, dps=40):
         return mp.mpf(1)
     if r > n:
         return mp.mpf(0)
-    with mp.workdps(dps + 10):
+    # (1 - sum of the lower terms cancels when the confidence is tiny: 1e-160 is reached
+    # with p = 0.99999 and r = 40; 400 guard digits keep 40 correct ones down to 1e-400)
+    with mp.workdps(dps + 410):
         fp = Fraction(p)
         pm = mp.mpf(fp.numerator) / mp.mpf(fp.denominator)
         q, one_q = 1 - pm, pm
